@@ -53,7 +53,7 @@ theorem span_reparse_value (fl : Flags) (s : Text) (v : Value) (h : parseValueTe
     obtain ⟨hsub, hwf⟩ := subs_value_sub false v w hw
     obtain ⟨is, hnode⟩ := valueV_node w
     rw [hloc] at hnode
-    obtain ⟨h1, h2, seg, htl, l2, hc⟩ := item_slice fl s body ht [valueV v] default l' hm (i := valueV v) (j := valueV w)
+    obtain ⟨h1, h2, _, seg, htl, hc⟩ := item_slice fl s body ht [valueV v] default l' hm (i := valueV v) (j := valueV w)
       (by simp) hsub (valueV_solid w) is a b hnode
     refine ⟨h1, h2, ?_⟩
     have hlex : Lex.lexAll (slice s a b) = .ok (Lex.sofTok :: (seg ++ [eofT (b - a)])) := by
@@ -61,7 +61,7 @@ theorem span_reparse_value (fl : Flags) (s : Text) (v : Value) (h : parseValueTe
       exact ⟨_, rfl, by rw [Spec.slice_length h1 h2]; exact htl⟩
     rw [← valueV_down] at hc
     have hpc := parseValue_complete fl _ (w.mapLoc (locDown a)) (by rw [wfValue_mapLoc]; exact hwf wf)
-      ((matches_iff _ _ _).2 ⟨l2, hc⟩)
+      ((matches_iff _ _ _).2 ⟨_, hc⟩)
     unfold parseValueText
     rw [hlex]; simp only [hpc]; rfl
   · cases h
@@ -85,7 +85,7 @@ theorem span_reparse_type (fl : Flags) (s : Text) (t : TypeRef) (h : parseTypeTe
     obtain ⟨hsub, hwf⟩ := subs_type_sub t w hw
     obtain ⟨is, hnode⟩ := typeV_node w
     rw [hloc] at hnode
-    obtain ⟨h1, h2, seg, htl, l2, hc⟩ := item_slice fl s body ht [typeV t] default l' hm (i := typeV t) (j := typeV w)
+    obtain ⟨h1, h2, _, seg, htl, hc⟩ := item_slice fl s body ht [typeV t] default l' hm (i := typeV t) (j := typeV w)
       (by simp) hsub (typeV_solid w) is a b hnode
     refine ⟨h1, h2, ?_⟩
     have hlex : Lex.lexAll (slice s a b) = .ok (Lex.sofTok :: (seg ++ [eofT (b - a)])) := by
@@ -93,7 +93,7 @@ theorem span_reparse_type (fl : Flags) (s : Text) (t : TypeRef) (h : parseTypeTe
       exact ⟨_, rfl, by rw [Spec.slice_length h1 h2]; exact htl⟩
     rw [← typeV_down] at hc
     have hpc := parseType_complete fl _ (w.mapLoc (locDown a)) (by rw [wfType_mapLoc]; exact hwf wf)
-      ((matches_iff _ _ _).2 ⟨l2, hc⟩)
+      ((matches_iff _ _ _).2 ⟨_, hc⟩)
     unfold parseTypeText
     rw [hlex]; simp only [hpc]; rfl
   · cases h
